@@ -730,3 +730,257 @@ Proof.
   left. destruct (state_of c n) eqn:E; try reflexivity; [congruence|].
   exfalso. pose proof (I1 n Hne E) as Hin. rewrite Hs in Hin. exact Hin.
 Qed.
+
+(* ---------- the logging execution computes the same context as [run] ---------- *)
+Lemma run_body_acc_eq : forall l c acc,
+  (fix run_body (c : ctx) (acc : list event) (l : list call) {struct l} : ctx * list event :=
+     match l with
+     | [] => (c, acc)
+     | t :: r => let (c', acc') := run_acc c acc t in run_body c' acc' r
+     end) c acc l = run_list_acc c acc l.
+Proof. induction l as [|t r IH]; intros c acc; [reflexivity|]. cbn [run_list_acc]. destruct (run_acc c acc t). apply IH. Qed.
+
+Lemma run_list_acc_fst : forall l,
+  Forall (fun t => forall c acc, fst (run_acc c acc t) = run c t) l ->
+  forall c acc, fst (run_list_acc c acc l) = run_list c l.
+Proof.
+  induction 1 as [|t r Ht _ IH]; intros c acc; [reflexivity|].
+  cbn [run_list_acc run_list]. specialize (Ht c acc). destruct (run_acc c acc t) as [c' acc'].
+  cbn [fst] in Ht. subst c'. apply IH.
+Qed.
+
+Theorem run_acc_fst : forall t c acc, fst (run_acc c acc t) = run c t.
+Proof.
+  induction t as [k|k|name allow body IH] using call_ind2; intros c acc; try reflexivity.
+  pose proof (run_list_acc_fst body IH) as HL.
+  rewrite run_Call. unfold call_step. cbn [run_acc].
+  destruct (enter name (set_allow (frame_in c name) allow)) as [c1 a].
+  assert (K : forall x y,
+    fst (let (c3, acc3) := run_list_acc x y body in (frame_out (exit name c3), log_exit (exit name c3) acc3))
+    = frame_out (exit name (run_list x body))).
+  { intros x y. specialize (HL x y). destruct (run_list_acc x y body) as [c3 acc3]. cbn [fst] in *. subst c3. reflexivity. }
+  destruct a.
+  - cbv beta iota zeta. rewrite run_body_acc_eq. apply K.
+  - reflexivity.
+  - reflexivity.
+  - destruct name as [n|].
+    + destruct (truthy (Some n)).
+      * destruct (registered (exit (Some n) c1) n); [reflexivity|].
+        cbv beta iota zeta. rewrite run_body_acc_eq. apply K.
+      * cbv beta iota zeta. rewrite run_body_acc_eq. apply K.
+    + cbv beta iota zeta. rewrite run_body_acc_eq. apply K.
+Qed.
+
+Theorem trace_final : forall md tops, fst (run_list_acc (init md) [] tops) = run_list (init md) tops.
+Proof. intros. apply run_list_acc_fst. apply Forall_forall. intros t _. apply run_acc_fst. Qed.
+
+(* ---------- counted depth ---------- *)
+Lemma check_peak : forall name c,
+  g_peak (fst (check name c)) = g_peak c /\ max_depth (fst (check name c)) = max_depth c.
+Proof.
+  intros name c. unfold check. destruct name as [n|]; [|split; reflexivity].
+  assert (C : g_peak (cycle_placeholder n c) = g_peak c /\ max_depth (cycle_placeholder n c) = max_depth c).
+  { unfold cycle_placeholder. cbv zeta. destruct (should_store n (cycle_path n (stack c)));
+      destruct (allow_self c && is_direct (cycle_path n (stack c))); split; reflexivity. }
+  destruct (state_of c n); try (split; reflexivity);
+    (destruct (max_depth c <? depth c); [split; reflexivity|]);
+    (destruct (mem_str n (stack c)); [exact C | split; reflexivity]).
+Qed.
+
+Lemma enter_peak : forall name c c' a,
+  enter name c = (c', a) -> g_peak c' = N.max (g_peak c) (depth c + 1) /\ max_depth c' = max_depth c.
+Proof.
+  intros name c c' a H. unfold enter in H.
+  pose proof (check_peak name (set_depth c (depth c + 1))) as K.
+  destruct (check name (set_depth c (depth c + 1))) as [c2 a2]. cbn [fst g_peak max_depth set_depth] in K.
+  destruct a2; destruct name as [n|]; try (inversion H; subst; exact K).
+  destruct (truthy (Some n)); inversion H; subst; exact K.
+Qed.
+
+Lemma exit_peak : forall name c,
+  g_peak (exit name c) <= N.max (g_peak c) (depth c) /\ max_depth (exit name c) = max_depth c.
+Proof.
+  intros name c. unfold exit.
+  set (c1 := if 0 <? depth c then set_depth c (depth c - 1) else c).
+  assert (H1 : g_peak c1 <= N.max (g_peak c) (depth c) /\ max_depth c1 = max_depth c).
+  { unfold c1. destruct (0 <? depth c); cbn [g_peak max_depth set_depth]; split; try reflexivity; lia. }
+  destruct name as [n|]; [|exact H1].
+  destruct (truthy (Some n)); [|exact H1]. cbv zeta.
+  destruct (mem_str n (stack c1));
+    match goal with |- context [alookup ?k ?d] => destruct (alookup k d) as [[]|] end; exact H1.
+Qed.
+
+Definition depth_ok (t : call) : Prop :=
+  forall c, NoDup (stack c) -> depth c <= max_depth c ->
+            g_peak (run c t) <= N.max (g_peak c) (max_depth c + 1) /\ max_depth (run c t) = max_depth c.
+
+Lemma depth_ok_list : forall l, Forall depth_ok l ->
+  forall c, NoDup (stack c) -> depth c <= max_depth c ->
+            g_peak (run_list c l) <= N.max (g_peak c) (max_depth c + 1) /\ max_depth (run_list c l) = max_depth c.
+Proof.
+  induction 1 as [|t r Ht _ IH]; intros c Hn Hd; cbn [run_list]; [split; [lia | reflexivity]|].
+  destruct (Ht c Hn Hd) as [P1 M1]. destruct (run_below t c Hn) as (N1 & _ & D1).
+  destruct (IH (run c t) N1) as [P2 M2]; [lia|]. split; [lia | congruence].
+Qed.
+
+Lemma all_named_Call : forall name allow body,
+  all_named (Call name allow body) = true -> truthy name = true /\ Forall (fun t => all_named t = true) body.
+Proof.
+  intros name allow body H. cbn [all_named] in H. apply andb_true_iff in H. destruct H as [H1 H2].
+  split; [exact H1|]. induction body as [|x r IH]; constructor; apply andb_true_iff in H2; destruct H2; auto.
+Qed.
+
+(* In a tree of NAMED frames, started at counted depth <= limit, the counted depth never exceeds limit + 1
+   (the frame at limit + 1 is the one that receives the depth placeholder). *)
+Theorem depth_named : forall t, all_named t = true -> depth_ok t.
+Proof.
+  induction t as [k|k|name allow body IH] using call_ind2; intro Hnamed.
+  - intros c _ _. cbn. split; [lia | reflexivity].
+  - intros c _ _. cbn. split; [lia | reflexivity].
+  - apply all_named_Call in Hnamed. destruct Hnamed as [Ht Hb].
+    assert (IH' : Forall depth_ok body).
+    { apply Forall_forall. intros x Hx. rewrite Forall_forall in IH, Hb. apply IH; auto. }
+    pose proof (depth_ok_list body IH') as HL. clear IH IH' Hb.
+    intros c Hn Hd. rewrite run_Call. unfold call_step.
+    set (c0 := set_allow (frame_in c name) allow).
+    destruct (enter name c0) as [c1 a] eqn:E.
+    pose proof (enter_peak _ _ _ _ E) as [P1 M1].
+    pose proof (enter_spec _ _ _ _ E) as [D1 S1].
+    assert (N1 : NoDup (stack c1)).
+    { destruct S1 as [S1|(n & _ & _ & _ & Hm & S1)]; rewrite S1; [exact Hn|].
+      apply NoDup_app_intro_single; [exact Hn | apply mem_str_false; exact Hm]. }
+    change (g_peak c0) with (g_peak c) in P1. change (depth c0) with (depth c) in P1, D1.
+    change (max_depth c0) with (max_depth c) in M1.
+    assert (Fin : forall Y, NoDup (stack Y) -> depth Y <= depth c + 1 ->
+                  g_peak Y <= N.max (g_peak c) (max_depth c + 1) -> max_depth Y = max_depth c ->
+                  g_peak (frame_out (exit name Y)) <= N.max (g_peak c) (max_depth c + 1)
+                  /\ max_depth (frame_out (exit name Y)) = max_depth c).
+    { intros Y _ DY PY MY. pose proof (exit_peak name Y) as [PE ME].
+      change (g_peak (frame_out (exit name Y))) with (g_peak (exit name Y)).
+      change (max_depth (frame_out (exit name Y))) with (max_depth (exit name Y)). split; [lia | congruence]. }
+    assert (Body : forall X, NoDup (stack X) -> depth X <= max_depth c -> depth X <= depth c + 1 ->
+                   g_peak X <= N.max (g_peak c) (max_depth c + 1) -> max_depth X = max_depth c ->
+                   g_peak (frame_out (exit name (run_list X body))) <= N.max (g_peak c) (max_depth c + 1)
+                   /\ max_depth (frame_out (exit name (run_list X body))) = max_depth c).
+    { intros X NX DX DX' PX MX.
+      destruct (HL X NX) as [P2 M2]; [lia|].
+      destruct (run_list_below_all body X NX) as (N2 & _ & D2).
+      apply Fin; [exact N2 | lia | rewrite MX in P2; lia | congruence]. }
+    destruct a.
+    + (* CONTINUE: the depth check passed *)
+      destruct name as [n|]; [|discriminate].
+      unfold enter in E. destruct (check (Some n) (set_depth c0 (depth c0 + 1))) as [c2 a2] eqn:Ec.
+      assert (a2 = AContinue) by (destruct a2; try (inversion E; reflexivity); destruct (truthy (Some n)); inversion E; reflexivity).
+      subst a2. apply check_continue in Ec. destruct Ec as (_ & _ & Dchk & _).
+      cbn [depth max_depth set_depth] in Dchk. change (depth c0) with (depth c) in Dchk.
+      change (max_depth c0) with (max_depth c) in Dchk.
+      apply Body; [exact N1 | lia | lia | lia | exact M1].
+    + apply Fin; [exact N1 | lia | lia | exact M1].
+    + apply Fin; [exact N1 | lia | lia | exact M1].
+    + destruct name as [n|]; [|discriminate]. rewrite Ht.
+      pose proof (below_exit (Some n) c1 N1) as (N2 & _ & _).
+      pose proof (exit_depth (Some n) c1) as D2. pose proof (exit_peak (Some n) c1) as [P2 M2].
+      assert (E0 : (0 <? depth c1) = true) by (apply N.ltb_lt; lia). rewrite E0 in D2.
+      destruct (registered (exit (Some n) c1) n).
+      * change (g_peak (frame_out (exit (Some n) c1))) with (g_peak (exit (Some n) c1)).
+        change (max_depth (frame_out (exit (Some n) c1))) with (max_depth (exit (Some n) c1)).
+        split; [lia | congruence].
+      * apply Body; cbn [stack depth g_peak max_depth add_fell set_state set_states]; try lia; try congruence.
+Qed.
+
+(* ---------- F08a: anonymous nesting is not limited by any check ---------- *)
+Lemma enter_None : forall c, enter None c = (set_depth c (depth c + 1), AContinue).
+Proof. reflexivity. Qed.
+
+Lemma anon_chain_run : forall k c,
+  let r := run c (anon_chain k) in
+  g_peak_nest r = N.max (g_peak_nest c) (g_nest c + N.of_nat k + 1) /\ g_nest r = g_nest c
+  /\ g_peak r = N.max (g_peak c) (depth c + N.of_nat k + 1) /\ depth r = depth c
+  /\ exceeded r = exceeded c /\ states r = states c /\ stack r = stack c /\ parsed r = parsed c.
+Proof.
+  induction k as [|k IH]; intro c.
+  - cbn [anon_chain]. rewrite run_Call. unfold call_step. rewrite enter_None. cbn [run_list].
+    cbn -[N.max N.add N.sub N.ltb]. 
+    assert (E : (0 <? depth c + 1) = true) by (apply N.ltb_lt; lia). rewrite E.
+    cbn -[N.max N.add N.sub N.ltb]. repeat split; lia.
+  - cbn [anon_chain]. rewrite run_Call. unfold call_step. rewrite enter_None. cbn [run_list].
+    set (c1 := set_depth (set_allow (frame_in c None) false) (depth (set_allow (frame_in c None) false) + 1)).
+    destruct (IH c1) as (H1 & H2 & H3 & H4 & H5 & H6 & H7 & H8).
+    set (r := run c1 (anon_chain k)) in *.
+    assert (D : depth r = depth c + 1) by (rewrite H4; reflexivity).
+    assert (E : (0 <? depth r) = true) by (apply N.ltb_lt; lia).
+    unfold exit. rewrite E.
+    cbn -[N.max N.add N.sub N.ltb N.of_nat] in *.
+    rewrite H1, H2, H3, H4, H5, H6, H7, H8. repeat split; lia.
+Qed.
+
+(* for every configured limit and every k: a tree of k+1 nested anonymous frames reaches true nesting k+1 and
+   counted depth k+1 without a single depth placeholder *)
+Theorem anon_unbounded : forall md k,
+  let c := run_list (init md) [anon_chain k] in
+  g_peak_nest c = N.of_nat k + 1 /\ g_peak c = N.of_nat k + 1 /\ exceeded c = [] /\ states c = [] /\ rest c.
+Proof.
+  intros md k. cbn [run_list].
+  destruct (anon_chain_run k (init md)) as (H1 & _ & H3 & H4 & H5 & H6 & H7 & _).
+  cbn -[N.max N.add N.of_nat] in *. repeat split; try assumption; lia.
+Qed.
+
+Theorem refuted_F08a : forall md, exists t, guard_F08a md [t] = false /\ exceeded (run_list (init md) [t]) = [].
+Proof.
+  intro md. exists (anon_chain (N.to_nat (md + 1))).
+  destruct (anon_unbounded md (N.to_nat (md + 1))) as (H1 & _ & H3 & _).
+  split; [|exact H3]. unfold guard_F08a. apply N.leb_gt. rewrite H1. lia.
+Qed.
+
+(* ---------- witnesses rebuilt from the implementation's traces (corpus/C08) ---------- *)
+(* F08b: A{p0:[$ref C]}, C{p0:[$ref A], p1: oneOf[$ref A, string]}, B: string, declared in the order C, A, B *)
+Definition tops_F08b : list call := [(Call (Some [67]) true [(Call None true [(Call None true [(Call (Some [65]) true [(Call None true [(Call None true [(Call (Some [67]) true [])]); (Call None true [(Call (Some [67]) true [(Call None true [(Call None true [(Call (Some [65]) true [])]); (Call None true [])]); (Call (Some [67;80;49]) true [(Call None true []); (Call None true []); (Reg [67;112;49])]); (Reg [67])])])])])]); (Call None true [])]); (Call (Some [67;80;49]) true [(Call None true []); (Call None true []); (Reg [67;80;49])])]); (Call (Some [66]) true [(Reg [66])])].
+
+Theorem refuted_F08b :
+  let c := run_list (init default_max_depth) tops_F08b in
+  rest c /\ guard_F08b default_max_depth tops_F08b = false /\ forallb names_truthy tops_F08b = true
+  /\ In [67] (g_entered c) /\ terminal (state_of c [67]) = false.
+Proof. vm_compute. repeat split; auto. Qed.
+
+(* F08c: Alias: {$ref: Target}; Target: object *)
+Definition tops_F08c : list call := [(Call (Some [65;108;105;97;115]) true [(Call (Some [84;97;114;103;101;116]) true [(Call None true []); (Reg [84;97;114;103;101;116])])])].
+Definition declared_F08c : list str := [[65;108;105;97;115]; [84;97;114;103;101;116]].
+
+Theorem refuted_F08c :
+  let c := run_list (init default_max_depth) tops_F08c in
+  rest c /\ guard_F08b default_max_depth tops_F08c = true /\ guard_F08a default_max_depth tops_F08c = true
+  /\ forallb (fun n => terminal (state_of c n)) declared_F08c = true
+  /\ all_present declared_F08c c = false.
+Proof. vm_compute. repeat split; auto. Qed.
+
+(* F08d: a schema keyed by the empty string *)
+Definition tops_F08d : list call := [(Call (Some []) true [(Call None true [])])].
+
+Theorem refuted_F08d :
+  let c := run_list (init default_max_depth) tops_F08d in
+  rest c /\ guard_F08b default_max_depth tops_F08d = true /\ forallb names_truthy tops_F08d = false
+  /\ In [] (g_entered c) /\ state_of c [] = InProgress.
+Proof. vm_compute. repeat split; auto. Qed.
+
+(* non-vacuity: a three-schema ring A -> B -(map)-> C -> A with C also referring to itself through oneOf:
+   two structural cycles are cut by placeholders, no fall-through happens, five names are entered *)
+Definition tops_ring : list call := [(Call (Some [65]) true [(Call (Some [66]) true [(Call (Some [66;80;48]) true [(Call None true [(Call (Some [67]) true [(Call (Some [65]) true []); (Call (Some [67;80;49]) true [(Call None true [(Call (Some [67]) true [])]); (Call None true []); (Reg [67;112;49])])])]); (Reg [66;112;48])]); (Reg [66])]); (Reg [65])])].
+
+Example guard_nonvacuous :
+  guard_F08b default_max_depth tops_ring = true /\ forallb names_truthy tops_ring = true
+  /\ length (cycles (run_list (init default_max_depth) tops_ring)) = 2%nat
+  /\ length (g_entered (run_list (init default_max_depth) tops_ring)) = 7%nat.
+Proof. vm_compute. repeat split. Qed.
+
+(* ---------- C08 under the guard ---------- *)
+Theorem partial : forall md tops,
+  guard_F08b md tops = true ->
+  let c := run_list (init md) tops in
+  rest c /\ forall n, In n (g_entered c) -> n <> [] -> terminal (state_of c n) = true.
+Proof.
+  intros md tops G c.
+  assert (R : rest c) by (apply balanced_list; split; reflexivity).
+  split; [exact R|]. intros n Hn Hne.
+  destruct (terminal_or_fell c n (run_list_good tops (init md) (good_init md)) R Hn Hne) as [T|T]; [exact T|].
+  unfold guard_F08b in G. fold c in G. destruct (g_fell c); [destruct T | discriminate].
+Qed.
